@@ -135,8 +135,25 @@ func WriteProgramCode(pkgs []*Archive, w *sourcemapx.Filter, goVersion string) e
 
 	// Aggregate all go:linkname directives in the program together.
 	gls := linkname.GoLinknameSet{}
+	mainPath := "main"
 	for _, pkg := range pkgs {
-		gls.Add(pkg.GoLinknames)
+		if pkg.Name == "main" {
+			mainPath = pkg.ImportPath
+		}
+	}
+	for _, pkg := range pkgs {
+		links := pkg.GoLinknames
+		if mainPath != "main" {
+			// The linker knows the symbols of the main package as main.<name>,
+			// whatever the import path of the package is.
+			links = append([]linkname.GoLinkname{}, links...)
+			for i := range links {
+				if links[i].Implementation.PkgPath == "main" {
+					links[i].Implementation.PkgPath = mainPath
+				}
+			}
+		}
+		gls.Add(links)
 	}
 
 	sel := &dce.Selector[*Decl]{}
